@@ -11,8 +11,10 @@ Trusted base: ``BaseEventLoop._ready`` / ``_scheduled`` and ``Handle._run`` of C
 from __future__ import annotations
 
 import asyncio
+import gc
 import heapq
 import threading
+import warnings
 from asyncio import events
 
 
@@ -101,3 +103,7 @@ class StepLoop(asyncio.SelectorEventLoop):
             self.end()
             self.set_exception_handler(lambda *a: None)
             self.close()
+            # coroutines kept alive only by reference cycles are finalised now, not at interpreter shutdown
+            with warnings.catch_warnings():
+                warnings.simplefilter("ignore")
+                gc.collect()
